@@ -619,7 +619,9 @@ impl PreferenceManager {
         for parent in full_path.ancestors() {
             if parent == rules_dir {
                 break;
-            } else if is_dir_shim(parent) {
+            } else if is_dir_shim(parent) &&
+                      (find_file_in_dir_that_ends_with_shim(parent, ".yaml").is_some() || find_file_in_dir_that_ends_with_shim(parent, ".zip").is_some()) {
+                // a directory without rule files of its own (e.g., 'zh', which only holds 'zh/tw') is not a language to use
                 return Ok(parent.to_path_buf());
             }
         }
